@@ -29,13 +29,13 @@ TOKEN_RE = re.compile(r"Z[A-HJ-NP-Z]{6,}")
 
 
 def plan(tier, seed):
-    return [{"mode": "histories", "pool": 40 if tier == "quick" else 200, "nhist": 40 if tier == "quick" else 1800,
+    return [{"mode": "histories", "pool": 40 if tier == "quick" else 200, "nhist": 120 if tier == "quick" else 2500,
              "rseed": seed * 1000 + i, "registry": i % 3 != 2} for i in range(14)] + \
            [{"mode": "cli", "n": 20 if tier == "quick" else 500, "rseed": seed * 1000 + 100 + i} for i in range(2)]
 
 
 def minimums(tier):
-    return {"ops.compared": 8000, "histories.run": 400, "cache.invariant_checks": 8000, "tokens.scanned_outputs": 4000,
+    return {"ops.compared": 20000, "histories.run": 1200, "cache.invariant_checks": 20000, "tokens.scanned_outputs": 10000,
             "cli.arrays_compared": 60, "poison.histories": 80}
 
 
@@ -111,7 +111,50 @@ def build_pool(rng, u, reg, n):
             c = rng.choice("HKLPST?")
             pel, toks = mk(lambda: gen.gen_pel(rng, u, reg=reg, creator=c, fixtures=False))
             add(pel, "noplugins-creator", toks=toks)
-    return pool[:n + 6]
+    # context families: the SAME payload / ids under different contexts (drawer type, creator, SRC type, chip model), so
+    # that anything remembered from one context and replayed in another shows up as history dependence
+    for fam in rng.sample(range(4), 2):
+        if fam == 0:
+            from vf import iogen, iomodels as im
+            from io_drawer.drawer_type import MEX_DRAWER_TYPE, NIMITZ_DRAWER_TYPE
+            mex = im.parse_shipped_string_file(MEX_DRAWER_TYPE.get_trace_string_file_path())
+            nim = im.parse_shipped_string_file(NIMITZ_DRAWER_TYPE.get_trace_string_file_path())
+            both = mex[:40] + nim[:40] + rng.sample(mex, 20) + rng.sample(nim, 20)
+            payloads = [(84, iogen.gen_trace(rng, both, name=b"FANS", nentries=6, hostile=False)),
+                        (73, iogen.gen_ilog(rng, im.parse_shipped_pte_table(MEX_DRAWER_TYPE.get_header_file_path())[0], 8)),
+                        (72, bytes(rng.randrange(256) for _ in range(48)))]
+            for sub, payload in payloads:
+                for ver in (1, 2, 1):
+                    pel, toks = mk(lambda: pm.Pel("M", pm.gen_ph(rng, u, "M"), pm.gen_uh(rng, "M"),
+                                                  [pm.sec_ud(rng, u, "M", 0x2C00, sub, ver, payload, expect_mode="plugin"), pm.gen_mt(rng, u, "M")]))
+                    add(pel, "m2c00:%d/v%d" % (sub, ver), group="m2c00", toks=toks)
+        elif fam == 1:
+            comp = rng.choice([0xFA00, 0x2000, 0xE500, 0x1000, 0x0100, 0x4142])
+            for c in rng.sample("OBHMX", 4):
+                def b():
+                    ph, uh = pm.gen_ph(rng, u, c), pm.gen_uh(rng, c)
+                    ph["comp"] = uh["comp"] = comp
+                    return pm.Pel(c, ph, uh, [pm.gen_mt(rng, u, c)])
+                pel, toks = mk(b)
+                add(pel, "compid:%s" % c, group="compid", toks=toks)
+        elif fam == 2:
+            reason = rng.choice(["2030", "2031", "2035", "2033"])
+            for t, c in (("BD", "O"), ("11", "O"), ("BC", "B"), ("BD", "B"), ("B7", "O")):
+                ref = ("1100" if t == "11" else t + "8D") + reason
+                pel, toks = mk(lambda: pm.Pel(c, pm.gen_ph(rng, u, c), pm.gen_uh(rng, c),
+                                              [pm.gen_src(rng, u, True, c, srctype=t, refcode=ref), pm.gen_mt(rng, u, c)]))
+                add(pel, "registry:%s" % t, group="registry", toks=toks)
+        else:
+            from vf.props import c20
+            b0 = bytes(rng.randrange(256) for _ in range(8))
+            for model in ("20da0020", "60d20020", "%08x" % rng.randrange(1 << 32)):
+                sigs = bytes.fromhex(model) + b0
+                regs = c20.enc_regdump([(model, 1, 2, [("abcdef", 0, b"\x01\x02\x03"), ("123456", 2, b"\xaa")])])
+                for sub, payload in ((1, (1).to_bytes(4, "big") + sigs), (2, regs)):
+                    pel, toks = mk(lambda: pm.Pel("O", pm.gen_ph(rng, u, "O"), pm.gen_uh(rng, "O"),
+                                                  [pm.sec_ud(rng, u, "O", 0xE500, sub, 1, payload, expect_mode="plugin"), pm.gen_mt(rng, u, "O")]))
+                    add(pel, "oe500:%d/%s" % (sub, model[:4]), group="oe500", toks=toks)
+    return pool
 
 
 def family_ud(rng, u, creator, comp, flavor):
@@ -275,6 +318,12 @@ def gen_history(rng, pool):
             if victims:
                 ops.append((rng.choice(victims), 1, rng.choice(["decode", "decode", "summary"])))
         poisoned = True
+    groups = sorted({it.group for it in pool if it.group})
+    if groups and rng.random() < 0.5:
+        g = rng.choice(groups)
+        members = [i for i, it in enumerate(pool) if it.group == g]
+        for i in rng.sample(members, min(len(members), rng.randrange(2, 6))):
+            ops.append((i, 1, rng.choice(["decode", "decode", "summary"])))
     while len(ops) < n:
         i = rng.randrange(len(pool))
         if ops and rng.random() < 0.2:
@@ -321,6 +370,10 @@ def run(spec, ctx):
     tmp = os.path.join(root, "child.json")
     if spec["mode"] == "cli":
         return run_cli(spec, ctx, rng, u, reg, root, tmp)
+    if spec["shard"] % 2 == 0:
+        from vf.props import c20
+        c20.load_chipdata("full")          # before any fork: references and histories see the same chip data
+        ctx.see("chipdata", "full")
     pool = build_pool(rng, u, reg, spec["pool"])
     alltokens = {}
     for i, it in enumerate(pool):
